@@ -427,6 +427,76 @@ def add_violation(violations, **kw):
     if len(violations) < 200:
         violations.append(kw)
 
+
+# ---- character tables: when the tables extracted from the build differ from XML 1.0, name inputs ----
+
+def _ranges_from(src, name):
+    m = re.search(r'def ' + name + r' : List \(Nat × Nat\) :=\s*(.*?)(?=\n\s*\n|\ndef |\n/--|\nend )', src, flags=re.S)
+    if not m:
+        return None
+    body = m.group(1)
+    out = [(int(a, 16), int(b, 16)) for a, b in re.findall(r'\(0x([0-9A-Fa-f]+), 0x([0-9A-Fa-f]+)\)', body)]
+    return out, body
+
+def _in(rs, c):
+    return any(a <= c <= b for a, b in rs)
+
+def _diff_points(r1, r2, limit=6):
+    """some code points on which two range lists disagree (range endpoints and neighbours)"""
+    cands = set()
+    for a, b in r1 + r2:
+        for x in (a - 1, a, b, b + 1):
+            if 0 < x < 0x110000 and not (0xD800 <= x <= 0xDFFF):
+                cands.add(x)
+    return sorted(c for c in cands if _in(r1, c) != _in(r2, c))[:limit]
+
+def table_diff_cases(chk):
+    """[(CASE line, expected_accept, what)] for code points where the build's tables differ from XML 1.0"""
+    lean = chk.LEAN
+    gen = open(os.path.join(lean, 'Rox', 'Generated.lean')).read()
+    spec = open(os.path.join(lean, 'Rox', 'Spec', 'Xml10.lean')).read()
+    g = {k: _ranges_from(gen, k)[0] for k in ('implXmlChar', 'implNameStart', 'implName')}
+    sc = _ranges_from(spec, 'xml10Char')[0]
+    sn = _ranges_from(spec, 'xml10NameStart')[0]
+    extra = _ranges_from(spec, 'xml10NameChar')[0]          # the ranges written after `xml10NameStart ++`
+    snc = sn + extra
+    out = []
+    def case(i, text):
+        return f"CASE table-{i} 0 4294967295 {text.encode('utf-8').hex()}"
+    k = 0
+    for c in _diff_points(g['implXmlChar'], sc):
+        exp = _in(sc, c)
+        out.append((case(k, '<a>' + chr(c) + '</a>'), exp, f'U+{c:04X} in character data: XML 1.0 [2] Char says {"legal" if exp else "illegal"}')); k += 1
+    for c in _diff_points(g['implNameStart'], sn):
+        exp = _in(sn, c) and _in(sc, c)
+        out.append((case(k, '<' + chr(c) + '/>'), exp, f'U+{c:04X} as first character of a name: XML 1.0 [4] NameStartChar says {"legal" if exp else "illegal"}')); k += 1
+    for c in _diff_points(g['implName'], snc):
+        exp = _in(snc, c) and _in(sc, c)
+        out.append((case(k, '<a' + chr(c) + '/>'), exp, f'U+{c:04X} inside a name: XML 1.0 [4a] NameChar says {"legal" if exp else "illegal"}')); k += 1
+    return out
+
+def run_table_diff(pid, exe, chk, seed, violations, notes):
+    try:
+        items = table_diff_cases(chk)
+    except Exception as e:
+        notes.append(f'table comparison skipped: {e}')
+        return
+    if not items:
+        return
+    impl, _, crashes, _ = chk.run_cases(exe, [c for c, _, _ in items], 'arena', seed, want_model=False)
+    for (line, exp, what) in items:
+        cid = line.split(' ')[1]
+        il = impl.get(cid)
+        if il is None:
+            continue
+        acc = res_kind(res_line(il)) == 'ok'
+        if acc and not exp and pid == 'C08':
+            add_violation(violations, kind='impl-oracle', concrete=True, case=chk.case_text(il),
+                          what='accepted although ill-formed: ' + what)
+        if (not acc) and exp and pid == 'C03':
+            add_violation(violations, kind='impl-oracle', concrete=True, case=chk.case_text(il),
+                          what='rejected although well-formed: ' + what)
+
 def with_limits(cases, seed):
     """C01: spread the option space over the cases (allow_dtd x nodes_limit)."""
     out = []
@@ -453,6 +523,8 @@ def run_property(pid, cfg, tier, seed, exe, chk, violations, broken, notes, repl
             cases += chk.gen_cases(exe, spec, seed)
     if cfg.get('limits'):
         cases = with_limits(cases, seed)
+    if pid in ('C03', 'C08') and not replay:
+        run_table_diff(pid, exe, chk, seed, violations, notes)
     impl, model, crashes, drvfail = chk.run_cases(exe, cases, cfg['sections'], seed)
     for d in drvfail:
         broken.append({'obligation': 'model driver', 'detail': d})
